@@ -12,6 +12,7 @@ package proxy
 import (
 	"errors"
 	"fmt"
+	"os"
 	"strings"
 	"testing"
 	"time"
@@ -25,6 +26,8 @@ import (
 	"go.minekube.com/gate/pkg/edition/java/proto/packet/chat"
 	"go.minekube.com/gate/pkg/edition/java/proto/state"
 	"go.minekube.com/gate/pkg/edition/java/proto/version"
+	"go.minekube.com/gate/pkg/edition/java/proxy/crypto"
+	"go.minekube.com/gate/pkg/edition/java/proxy/crypto/keyrevision"
 	"go.minekube.com/gate/pkg/edition/java/proxy/zzverif/vrt"
 	"go.minekube.com/gate/pkg/gate/proto"
 )
@@ -54,7 +57,21 @@ func (c c22case) String() string {
 	return fmt.Sprintf("family=%s tree=%s perm=%v line=%q event=%s", c.Family, treeNames[c.Tree], c.Perm, c.Line, ev)
 }
 
-var families = []string{"legacy", "keyed-unsigned", "keyed-signedflag", "session", "session-offset", "unsigned"}
+var families = []string{"legacy", "keyed-unsigned", "keyed-signedflag", "session", "session-offset", "unsigned",
+	// signed commands: the player holds an identified key (keyed) / the command carries argument signatures
+	// (session); forceKeyAuthentication on (the default) and off ("-noforce")
+	"keyed-key-v2", "keyed-key-v2-noforce", "keyed-key-v1", "session-signed", "session-signed-noforce"}
+
+// signedForce: families where rewriting the command makes the proxy disconnect the player (illegal protocol
+// state) instead of delivering a command whose signature no longer matches.
+var signedForce = map[string]bool{"keyed-key-v2": true, "session-signed": true}
+
+type vKey struct {
+	crypto.IdentifiedKey // only KeyRevision is consulted on this path
+	rev                  keyrevision.Revision
+}
+
+func (k vKey) KeyRevision() keyrevision.Revision { return k.rev }
 
 var familyProtocol = map[string]proto.Protocol{
 	"legacy":           version.Minecraft_1_18_2.Protocol,
@@ -63,15 +80,26 @@ var familyProtocol = map[string]proto.Protocol{
 	"session":          version.Minecraft_1_20_3.Protocol,
 	"session-offset":   version.Minecraft_1_19_4.Protocol,
 	"unsigned":         version.Minecraft_1_21.Protocol,
+
+	"keyed-key-v2":           version.Minecraft_1_19_1.Protocol,
+	"keyed-key-v2-noforce":   version.Minecraft_1_19_1.Protocol,
+	"keyed-key-v1":           version.Minecraft_1_19.Protocol,
+	"session-signed":         version.Minecraft_1_20_3.Protocol,
+	"session-signed-noforce": version.Minecraft_1_20_3.Protocol,
 }
 
-var treeNames = []string{"none", "a", "a{b}", "a[perm]", "a{b[perm]}", "a(non-exec){b}", "a(run-error)", "a{<int>}"}
+var treeNames = []string{"none", "a", "a{b}", "a[perm]", "a{b[perm]}", "a(non-exec){b}", "a(run-error)", "a{<int>}", "a[perm]{b}+alias:al"}
+
+const aliasTree = 8
 
 // incompleteLines: command lines that match a registered path completely but end on a node without an
 // executable (brigadier reports these as "unknown or incomplete command").
 var incompleteLines = map[int]map[string]bool{5: {"a": true}}
 
 var lines = []string{"a", "a b", "a x", "a 5", "b", "", " a", "a ", "A", "a  b", "/a", "/a b", "//b"}
+
+// aliasLines are added for the alias tree (and for tree "none" as the control: the same lines name nothing there).
+var aliasLines = []string{"al", "al b", "AL"}
 
 type runRec struct {
 	runs []string // "node:input"
@@ -112,6 +140,10 @@ func registerTree(m *command.Manager, t int, rr *runRec) (topNeedsPerm map[strin
 	case 7:
 		m.Register(brigodier.Literal("a").Executes(rr.cmd("a", nil)).Then(brigodier.Argument("n", brigodier.Int).Executes(rr.cmd("a <n>", nil))))
 		topNeedsPerm["a"] = false
+	case aliasTree:
+		m.RegisterWithAliases(brigodier.Literal("a").Requires(requireUse).Executes(rr.cmd("a", nil)).Then(brigodier.Literal("b").Executes(rr.cmd("a b", nil))), "al")
+		topNeedsPerm["a"] = true
+		topNeedsPerm["al"] = true
 	default:
 		panic("tree")
 	}
@@ -126,8 +158,11 @@ func clientPacket(c c22case) proto.Packet {
 		return &chat.LegacyChat{Message: "/" + c.Line}
 	case "keyed-unsigned":
 		return &chat.KeyedPlayerCommand{Unsigned: true, Command: c.Line, Timestamp: c22t0}
-	case "keyed-signedflag":
+	case "keyed-signedflag", "keyed-key-v2", "keyed-key-v2-noforce", "keyed-key-v1":
 		return &chat.KeyedPlayerCommand{Unsigned: false, Command: c.Line, Timestamp: c22t0}
+	case "session-signed", "session-signed-noforce":
+		return &chat.SessionPlayerCommand{Command: c.Line, Timestamp: c22t0, Salt: 7,
+			ArgumentSignatures: chat.ArgumentSignatures{Entries: []chat.ArgumentSignature{{Name: "n", Signature: make([]byte, 256)}}}}
 	case "session":
 		return &chat.SessionPlayerCommand{Command: c.Line, Timestamp: c22t0}
 	case "session-offset":
@@ -194,12 +229,18 @@ func runC22(c c22case) (fails []c22fail, class string, hung bool) {
 			e.SetCommand(c.NewCmd)
 		}
 	})
-	cfg := &config.Config{ForceKeyAuthentication: true}
+	cfg := &config.Config{ForceKeyAuthentication: !strings.HasSuffix(c.Family, "-noforce")}
 	perms := map[string]bool{}
 	if c.Perm {
 		perms["use"] = true
 	}
 	player, px := newVPlayer(client, cfg, mgr, perms)
+	switch c.Family {
+	case "keyed-key-v2", "keyed-key-v2-noforce":
+		player.playerKey = vKey{rev: keyrevision.LinkedV2}
+	case "keyed-key-v1":
+		player.playerKey = vKey{rev: keyrevision.GenericV1}
+	}
 	rr := &runRec{}
 	topNeedsPerm := registerTree(px.Command(), c.Tree, rr)
 	sc := &serverConnection{player: player, log: logr.Discard()}
@@ -235,6 +276,10 @@ func runC22(c c22case) (fails []c22fail, class string, hung bool) {
 	if c.Rw {
 		eff = c.NewCmd
 	}
+	// A signed command that the event REWROTE cannot be delivered with a valid signature: with
+	// forceKeyAuthentication the defined outcome is that the proxy disconnects the player. Then (and only
+	// then) "nothing reached the backend" is accepted where the statement promises one delivery.
+	kicked := signedForce[c.Family] && c.Rw && !c.Deny && client.closes > 0
 	needsPerm, registered := topNeedsPerm[firstToken(eff)]
 	names := registered && (!needsPerm || c.Perm)
 
@@ -252,7 +297,9 @@ func runC22(c c22case) (fails []c22fail, class string, hung bool) {
 		if len(rr.runs) != 0 {
 			bad("forward/executed", "event asked to forward, proxy still ran %v", rr.runs)
 		}
-		if len(cmds) != 1 {
+		if kicked && len(cmds) == 0 {
+			class = "forwarded-by-event:kicked"
+		} else if len(cmds) != 1 {
 			bad("forward/backend-count", "event asked to forward: backend received %d commands %q, want exactly one", len(cmds), cmds)
 		} else if cmds[0] != eff {
 			if c.Rw && cmds[0] == c.Line {
@@ -288,7 +335,9 @@ func runC22(c c22case) (fails []c22fail, class string, hung bool) {
 		if len(rr.runs) != 0 {
 			bad("backend-command/executed", "%q names no usable proxy command, proxy still ran %v", eff, rr.runs)
 		}
-		if len(cmds) != 1 {
+		if kicked && len(cmds) == 0 {
+			class = "backend-command:kicked"
+		} else if len(cmds) != 1 {
 			bad("backend-command/backend-count", "%q names no usable proxy command: backend received %d commands %q, want exactly one", eff, len(cmds), cmds)
 		} else if cmds[0] != eff {
 			if c.Rw && cmds[0] == c.Line {
@@ -317,10 +366,21 @@ func forEachC22(thorough bool, f func(c c22case)) {
 	if thorough {
 		evs = append(evs, ev{rw: true, nc: ""}, ev{rw: true, nc: "a x"}, ev{rw: true, nc: "a 5"}, ev{fwd: true, rw: true, nc: "zz y"}, ev{deny: true, fwd: true, rw: true, nc: "a"})
 	}
-	for _, fam := range families {
+	skipNew := os.Getenv("VERIF_SKIP_NEW") != "" // mutant bookkeeping only: the enumeration as it was before the signed/no-force/alias dimensions
+	for fi, fam := range families {
+		if skipNew && fi >= 6 {
+			continue
+		}
 		for t := range treeNames {
+			if skipNew && t == aliasTree {
+				continue
+			}
 			for _, perm := range []bool{false, true} {
-				for _, ln := range lines {
+				lns := lines
+				if (t == aliasTree || t == 0) && !skipNew {
+					lns = append(append([]string(nil), lines...), aliasLines...)
+				}
+				for _, ln := range lns {
 					for _, e := range evs {
 						if e.rw && e.nc == ln {
 							continue // not a rewrite
